@@ -1,4 +1,5 @@
 import GN.Require.Ideal
+import GN.Require.CacheLemmas
 
 /-!
 # C01 — require(): one evaluation and one exports identity per module per runtime
@@ -81,6 +82,18 @@ theorem uncaught_error_propagates_unchanged (t : Tree) (fuel : Nat) (st st' : IS
     (h : idealResolve t fuel st d spelling = (st', .err e)) :
     idealBody t (fuel + 1) st d self (.req spelling false :: rest) = (st', some e) := by
   simp [idealBody, h]
+
+/-- **Cache transparency — the code behaves like the reference semantics.** For every tree, every registration
+set and every history of top-level calls (from scripts anywhere and from Go), the model of the code with its four
+caches (files by path, native/core by name with `node:` aliases, requests by resolved path, node_modules
+lookups by (directory, name); forget-on-failure) produces exactly the observable log of the cache-free reference
+semantics, loader calls aside. Hence every theorem above (identity, at most one evaluation, cycles, failure not
+cached, thrown value delivered), C02's selection and C15's lookup hold of the code model after any history.
+The only side condition is about evaluation fuel (the reference run must not have exhausted its depth bound). -/
+theorem code_equals_reference (t : Tree) (calls : List TopCall)
+    (hfuel : NoFuelErr (idealHistory t calls).log) :
+    (runHistory t calls).log.filter (fun e => !e.isLoad) = (idealHistory t calls).log :=
+  cache_transparent t calls hfuel
 
 /-- non-vacuity: a body that throws fails with exactly the thrown value and is not cached afterwards -/
 example :
